@@ -14,4 +14,16 @@ for f in sorted(glob.glob(os.path.join(HERE, 'evidence', '*.json'))):
         jsonschema.validate(json.load(open(f)), es); print(f, 'ok')
     except Exception as e:
         ok = False; print(f, 'INVALID', str(e)[:300])
+# every open entry of known_findings.json must have produced its KNOWN-FINDING line in the committed (clean-tree) evidence
+try:
+    known = json.load(open(os.path.join(HERE, 'known_findings.json')))
+    for k in known:
+        if k.get('status') != 'open':
+            continue
+        ev = json.load(open(os.path.join(HERE, 'evidence', k['property'] + '.json')))
+        txt = json.dumps(ev)
+        if k['what'][:80] not in txt:
+            ok = False; print('open finding without KNOWN-FINDING line in evidence:', k['property'], k['key'])
+except Exception as e:
+    ok = False; print('known findings check failed:', e)
 sys.exit(0 if ok else 1)
